@@ -327,6 +327,7 @@ def setitem(R, E, arr, idx, val, node):
     except Advanced:
         return advanced_set(R, E, arr, idx, val, node)
     dst = arr.view(shape, imap)
+    dst._full = (isinstance(idx, slice) and idx == slice(None, None, None)) and arr.ndim == 1 and all(e == ("dim", 0, 0, 1) for e in arr.imap)
     E.note_write(arr, node)
     if not shape:
         if isinstance(val, NdArr):
@@ -367,6 +368,12 @@ def assign_view(E, dst, val, node):
     if not is_num_like(val):
         raise Unsupported("slice assignment of %r" % (val,))
     dst.assign_fn(lambda *i: cast(val, dst.kind))
+    hook = getattr(dst.cell, "on_fill", None)
+    if hook is not None:
+        if dst.ndim == 1 and all(e == ("dim", 0, 0, 1) for e in dst.imap) and getattr(dst, "_full", False):
+            hook(cast(val, dst.kind), dst.cell.term)          # ghost counting: constant-fill lemma instance
+        else:
+            dst.cell.on_store = dst.cell.on_fill = None       # partial fill of a tracked array: counting facts are lost
 
 
 def advanced_get(R, E, arr, idx, node):
